@@ -94,6 +94,14 @@ def gen_cases(ctx):
         {"op": "group", "helper": "nth", "kind": "float", "args": {"drop_na": True, "index": -3}, "vals": [1.0, 2.0, "nan", "nan"], "g": [0, 0, 1, 1]},
         {"op": "group", "helper": "count", "kind": "float", "args": {"drop_na": True}, "vals": [1.0, "nan", "nan"], "g": [0, 0, 1]},
     ]
+    # integers beyond 2**53 (where float64 loses the last bits): sums, extremes, elements and the mode are exact integers
+    big = 9007199254740993
+    for h in ("sum", "max", "min", "first", "last", "mode", "median", "count_unique", "nth"):
+        a = {"drop_na": None}
+        if h == "nth":
+            a["index"] = 1
+        cases.append({"op": "group", "helper": h, "kind": "int", "args": dict(a), "vals": [big, 1, 1, big, 2, big + 2], "g": [0, 0, 0, 1, 1, 1]})
+        cases.append({"op": "vector", "helper": h, "kind": "int", "args": dict(a), "vals": [big, 1, 1]})
     # exactly one element left after the missing ones are dropped (and none, and two): "fewer elements than the statistic needs"
     # is counted AFTER the drop
     for h in HELPERS:
